@@ -323,7 +323,7 @@ fn run_child(work: &Path, start: &Texts, edits: &[(usize, String)]) -> Result<Hi
         match child.try_wait() {
             Ok(Some(_)) => break child.wait_with_output().map_err(|e| e.to_string())?,
             Ok(None) => {
-                if start_t.elapsed() > std::time::Duration::from_secs(600) {
+                if start_t.elapsed() > std::time::Duration::from_secs(2400) {
                     let _ = child.kill();
                     let _ = child.wait();
                     return Err("child timed out".into());
